@@ -336,6 +336,8 @@ func runC12(c *Ctx) {
 		c.Floor("C12-R5", "lease release sites", nRel, 3)
 	}
 	checkLeaseLayout(c)
+	checkStoredExpiryIsTheGivenInstant(c, "C12-R5")
+	checkLeaseNotMirroredIntoTimelessLockSet(c, "C12-R2")
 }
 
 // checkLeaseRelease: every success path of insertMinedTx passes a per-input unconditional unlockOutput.
@@ -454,36 +456,142 @@ func checkLeaseLayout(c *Ctx) {
 // output off the watch list; it is spent unnoticed, and at expiry the spent output returns to the balance.
 func checkRescanSetIncludesLeasedOutputs(c *Ctx, rule string) {
 	p := c.P
-	ad := p.Func("wallet", "Wallet", "activeData")
 	fc := p.Func("wtxmgr", "Store", "fetchCredits")
-	if ad == nil || fc == nil {
-		c.Unresolved(rule, "wallet.activeData / wtxmgr.Store.fetchCredits")
+	if fc == nil {
+		c.Unresolved(rule, "wtxmgr.Store.fetchCredits")
 		return
 	}
 	n := 0
-	for _, f := range p.regionOf(ad) {
-		for _, ci := range callsOf(f) {
-			call, ok := ci.(*ssa.Call)
-			if !ok {
-				continue
-			}
-			g := call.Call.StaticCallee()
-			if g == nil || fnPkgPath(g) != fnPkgPath(fc) {
-				continue
-			}
-			for _, inner := range callsOf(g) {
-				ic, ok := inner.(*ssa.Call)
-				if !ok || !p.isCallTo(ic, fc) {
+	// the two places that tell the backend which outpoints to watch for spends: the rescan request (activeData) and the
+	// recovery's filter requests (recovery hands the store's credits to the recovery manager's watch list)
+	for _, name := range []string{"activeData", "recovery"} {
+		root := p.Func("wallet", "Wallet", name)
+		if root == nil {
+			c.Unresolved(rule, "wallet.Wallet."+name)
+			continue
+		}
+		for _, f := range p.regionOf(root) {
+			for _, ci := range callsOf(f) {
+				call, ok := ci.(*ssa.Call)
+				if !ok {
 					continue
 				}
-				n++
-				a := p.argNamed(ic, "includeLocked", 2)
-				k, isK := stripConv(a).(*ssa.Const)
-				okInc := a != nil && isK && k.Value != nil && k.Value.String() == "true"
-				c.Check(rule, "rescan-set-includes-leased-outputs", call.Pos(), okInc,
-					"the outpoints handed to the rescan come from "+fnName(g)+", which leaves leased outputs out: a lease alive across a restart takes its output off the backend's watch list, a confirmed spend of it is never reported, the lease is not removed and the spent output returns to the spendable set at expiry")
+				g := call.Call.StaticCallee()
+				if g == nil || fnPkgPath(g) != fnPkgPath(fc) {
+					continue
+				}
+				for _, inner := range callsOf(g) {
+					ic, ok := inner.(*ssa.Call)
+					if !ok || !p.isCallTo(ic, fc) {
+						continue
+					}
+					n++
+					a := p.argNamed(ic, "includeLocked", 2)
+					k, isK := stripConv(a).(*ssa.Const)
+					okInc := a != nil && isK && k.Value != nil && k.Value.String() == "true"
+					c.Check(rule, "rescan-set-includes-leased-outputs:"+name, call.Pos(), okInc,
+						"the outpoints "+name+" asks the backend to watch come from "+fnName(g)+", which leaves leased outputs out: a lease alive across a restart takes its output off the watch list, a confirmed spend of it is never reported, the lease is not removed and the spent output returns to the spendable set at expiry")
+				}
 			}
 		}
 	}
-	c.Floor(rule, "credit queries feeding the rescan set", n, 1)
+	c.Floor(rule, "credit queries feeding the watched-outpoint sets", n, 2)
+}
+
+// checkStoredExpiryIsTheGivenInstant: the lease ends for every reader (balance, listing, sweep, re-lease test) at the
+// instant that is STORED, while the holder was told the instant LockOutput computed. The writer therefore persists the
+// time it is given as it is — the receiver of the conversion to seconds is the function's own time parameter, not a
+// rounded, truncated or shifted copy: rounding to the nearest second keeps the output leased for up to half a second past
+// the expiry its holder was told.
+func checkStoredExpiryIsTheGivenInstant(c *Ctx, rule string) {
+	ser := wtxFn(c, rule, "serializeLockedOutput")
+	if ser == nil {
+		return
+	}
+	n, ok := 0, true
+	for _, call := range callsOf(ser) {
+		cc, isCall := call.(*ssa.Call)
+		if !isCall {
+			continue
+		}
+		g := cc.Call.StaticCallee()
+		if g == nil || g.Pkg == nil || g.Pkg.Pkg.Path() != "time" || g.Signature.Recv() == nil {
+			continue
+		}
+		n++
+		// a method of time.Time: only the conversion to seconds of the parameter itself is expected
+		recv := stripConv(cc.Call.Args[0])
+		if u, isLoad := recv.(*ssa.UnOp); isLoad {
+			if al, isAl := u.X.(*ssa.Alloc); isAl && isParamSpill(al) {
+				for _, st := range storesTo(al) {
+					if prm, isPrm := st.Val.(*ssa.Parameter); isPrm {
+						recv = prm
+					}
+				}
+			}
+		}
+		_, isPrm := recv.(*ssa.Parameter)
+		if !(isPrm && (g.Name() == "Unix" || g.Name() == "UnixNano" || g.Name() == "UnixMilli")) {
+			ok = false
+		}
+	}
+	c.Check(rule, "stored-expiry-is-the-given-instant", ser.Pos(), ok && n > 0,
+		"serializeLockedOutput persists a transformed copy of the expiry it is given (rounded / shifted) instead of that instant: readers compare the clock with the stored value, so the lease outlives the expiry LockOutput reported to its holder")
+}
+
+// checkLeaseNotMirroredIntoTimelessLockSet: the wallet keeps a second, in-memory set of locked outpoints (lockunspent)
+// that coin selection and ListUnspent also consult; it has no notion of time. A lease must end by itself at its expiry,
+// so the functions that take or extend a lease in the store do not also put the output into that set: an entry there
+// outlives the lease until a restart or an explicit unlock, and the output "becomes available again" only on paper.
+func checkLeaseNotMirroredIntoTimelessLockSet(c *Ctx, rule string) {
+	p := c.P
+	lo := p.Func("wtxmgr", "Store", "LockOutput")
+	if lo == nil {
+		c.Unresolved(rule, "wtxmgr.Store.LockOutput")
+		return
+	}
+	writesSet := func(f *ssa.Function) bool {
+		for _, b := range f.Blocks {
+			for _, ins := range b.Instrs {
+				if mu, ok := ins.(*ssa.MapUpdate); ok {
+					if _, fld, _, okf := fieldOf(stripConv(mu.Map)); okf && fld == "lockedOutpoints" {
+						return true
+					}
+				}
+			}
+		}
+		return false
+	}
+	n := 0
+	for _, fn := range p.FuncsIn("wallet") {
+		if fn.Parent() != nil {
+			continue
+		}
+		leases := false
+		for _, f := range Closures(fn) {
+			for _, ci := range callsOf(f) {
+				if p.isCallTo(ci, lo) {
+					leases = true
+				}
+			}
+		}
+		if !leases {
+			continue
+		}
+		n++
+		bad := ""
+		for g := range p.reachSet(fn) {
+			if p.InRepo(g) && writesSet(g) {
+				bad = fnName(g)
+			}
+		}
+		for _, f := range Closures(fn) {
+			if writesSet(f) {
+				bad = fnName(f)
+			}
+		}
+		c.Check(rule, "lease-not-mirrored-into-timeless-lock-set:"+fn.Name(), fn.Pos(), bad == "",
+			fnName(fn)+" takes a lease in the store and also adds the output to the wallet's in-memory lock set (through "+bad+"): that set never expires, so after the lease ran out the output is still skipped by coin selection and ListUnspent until a restart or an explicit unlock")
+	}
+	c.Floor(rule, "wallet functions taking a lease", n, 1)
 }
